@@ -12,6 +12,8 @@
            short symbolic client strings against a fixed server version.
 (d) xh   : wiring table on the real stack (serve_one and the HTTP app): who is checked at all
            (__describe__ exempt, undeclared service never checks, HTTP 400); solver case split, concrete cells.
+(e) xh   : the same wiring with the metadata VALUE as raw bytes (non-UTF-8 included) through the real request reader
+           and dispatch: refused as protocol_version_mismatch when declared, never checked when not.
 """
 
 from __future__ import annotations
@@ -30,10 +32,12 @@ PROPERTY = "C09"
 ENCODED = [md.parse_version, srv.RpcServer._check_protocol_version]
 BOUNDS = "rx: all strings over code points 0..0x2FFFF (unbounded length); gate: unbounded non-negative int triples; real gate: client strings len<=%d" % pick(5, 7)
 BOUNDS += ("; wiring: service declaring 1.2.0 / none x {unary, producer stream, __describe__} x 9 client declarations x {socket serve_one, HTTP app}, "
-           "each cell on the real stack (case split, concrete runs)")
+           "each cell on the real stack (case split, concrete runs)"
+           "; raw bytes: values x | x+'1.2.0' | '1.2.'+x | '1.2.0'+x, x any 0..2 bytes over a %d-byte alphabet (digits, newline, invalid/lead/continuation UTF-8 bytes), same services/methods/transports" % pick(6, 10))
 OUTSIDE = (
     "the wiring of the gate (which calls are checked at all, __describe__ exempt, undeclared service never checks, HTTP 400) is decided only on the "
-    "finite table of item gate_wiring_table (one declared version, 9 client declarations; non-UTF-8 values and exchange streams not in the table); "
+    "finite tables of items gate_wiring_table (one declared version, 9 client declarations) and gate_wiring_raw_bytes (byte values of four shapes over a small "
+    "byte alphabet; other byte values, 3+ byte UTF-8 sequences and exchange streams not in the tables); "
     "Arrow transport of the metadata value; code points above 0x2FFFF; the wording of the refusal beyond naming both versions and a recognisable side to upgrade"
 )
 ASSUMPTIONS = [
@@ -628,15 +632,24 @@ _CLIENT_KINDS = (
 _METHODS = ("add", "gen", "__describe__")
 
 
-def _wiring_request(method: str, version: str | None, with_ticks: bool) -> bytes:
+def _wiring_request(method: str, version: str | bytes | None, with_ticks: bool) -> bytes:
     from vgi_rpc.rpc import rpc_methods
 
     b = _BytesIO()
+    if isinstance(version, bytes):  # a raw metadata value (any bytes, possibly not UTF-8), as a foreign client could send it
+        kw: dict = {"extra_metadata": {md.PROTOCOL_VERSION_KEY: version}}
+    else:
+        kw = {"protocol_version": version}
     if method == "__describe__":
-        _wire._write_request(b, method, _EMPTY_SCHEMA, {}, protocol_version=version)
+        _wire._write_request(b, method, _EMPTY_SCHEMA, {}, **kw)
     else:
         info = rpc_methods(_VSvc)[method]
-        _wire._write_request(b, method, info.params_schema, {"a": 1} if method == "add" else {}, protocol_version=version)
+        _wire._write_request(b, method, info.params_schema, {"a": 1} if method == "add" else {}, **kw)
+    if isinstance(version, bytes):
+        # the request really carries these bytes (the client-side writer is not what is being checked)
+        _b, cm = _ipc.open_stream(_BytesIO(b.getvalue())).read_next_batch_with_custom_metadata()
+        if cm is None or cm.get(md.PROTOCOL_VERSION_KEY) != version:
+            raise HarnessModelError("the request writer did not put the raw protocol_version bytes on the wire")
     if with_ticks and method == "gen":
         with _ipc.new_stream(b, _EMPTY_SCHEMA) as w:  # the producer's tick stream that follows the request on a socket
             w.write_batch(_empty_batch(_EMPTY_SCHEMA))
@@ -669,8 +682,12 @@ _W_SERVERS: dict = {}
 
 def _wiring_cell(declared: bool, mi: int, ki: int, http: bool) -> str | None:
     """One cell on real code; returns a description of how the property is broken, or None."""
-    method = _METHODS[mi]
     label, version, admitted, direction = _CLIENT_KINDS[ki]
+    return _wiring_judge(declared, _METHODS[mi], label, version, admitted, direction, http)
+
+
+def _wiring_judge(declared: bool, method: str, label: str, version: str | bytes | None, admitted: bool, direction: str, http: bool) -> str | None:
+    """One real request (version: text, raw bytes or absent) through the real stack, judged against the property."""
     key = (declared, http)
     if key not in _W_SERVERS:
         server = srv.RpcServer(_VSvc if declared else _NSvc, _WImpl(), server_id="srv", enable_describe=True)
@@ -706,7 +723,13 @@ def _wiring_cell(declared: bool, mi: int, ki: int, http: bool) -> str | None:
     if err.error_kind != "protocol_version_mismatch":
         return f"{where}: refused with error_kind {err.error_kind!r} ({err.error_type}), not protocol_version_mismatch"
     text = err.error_message
-    if "1.2.0" not in text or (version is not None and version not in text):
+    shown = version
+    if isinstance(version, bytes):  # bytes that are not text cannot be named; text is named as it decodes
+        try:
+            shown = version.decode("utf-8")
+        except UnicodeDecodeError:
+            shown = None
+    if "1.2.0" not in text or (shown is not None and shown not in text):
         return f"{where}: the refusal does not name both versions: {text[-200:]!r}"
     if direction in ("client_old", "server_old"):
         votes = _direction(text)
@@ -751,3 +774,78 @@ def _pick_index(i: int, n: int) -> int:
         if i == k:
             return k
     raise HarnessModelError("index outside the table")
+
+
+# ---------------------------------------------------------------------------
+# (e) raw metadata bytes -> gate, through the real dispatch
+# ---------------------------------------------------------------------------
+# The table above declares versions as text.  What a server receives is a byte string, and between the wire and the
+# gate sit the shared request reader and the per-transport dispatch code: "non-UTF-8 ... is refused with a
+# protocol_version_mismatch error", "a service declaring no version never checks" must hold for the bytes as
+# received.  The value is assembled from a byte alphabet that spans the UTF-8 decoder's cases (invalid start byte,
+# lead byte without / with its continuation, stray continuation) next to ASCII digits and a newline, in four shapes
+# around the server's own version; the expectation comes from Python's strict UTF-8 decoder and the canonical grammar only.
+# (added after a seeded change: a "must be text" check in the request reader that answered non-UTF-8 values with a
+# generic ProtocolError, also for a service that declares nothing.)
+
+_BYTE_ALPHA = pick((0x30, 0x39, 0x0A, 0xFF, 0xC3, 0xA9), (0x30, 0x39, 0x0A, 0xFF, 0xC3, 0xA9, 0x80, 0x20, 0xED, 0xC0))
+_RAW_SHAPES = ("whole", "prefix", "patch", "suffix")  # x | x+"1.2.0" | "1.2."+x | "1.2.0"+x
+
+
+def _raw_value(shape: int, n: int, i0: int, i1: int) -> bytes:
+    x = bytes([_BYTE_ALPHA[i0], _BYTE_ALPHA[i1]])[:n]
+    return (x, x + b"1.2.0", b"1.2." + x, b"1.2.0" + x)[shape]
+
+
+def _raw_class(raw: bytes) -> str:
+    try:
+        return _noncanonical_class(raw.decode("utf-8"))
+    except UnicodeDecodeError:
+        return "non-utf8"
+
+
+def _raw_cell(declared: bool, mi: int, http: bool, shape: int, n: int, i0: int, i1: int) -> str | None:
+    raw = _raw_value(shape, n, i0, i1)
+    try:
+        m = re.fullmatch(CANONICAL, raw.decode("utf-8"), re.ASCII)
+    except UnicodeDecodeError:
+        m = None
+    admitted, direction = False, "malformed"
+    if m is not None:  # canonical text: the same rule as for a declared string ('91.2.0' is a newer client)
+        direction = _expect((1, 2, 0), True, (int(m.group(1)), int(m.group(2)), int(m.group(3))))
+        admitted = direction == "ok"
+    return _wiring_judge(declared, _METHODS[mi], _raw_class(raw), raw, admitted, direction, http)
+
+
+def _replay_raw(args: dict) -> str | None:
+    return _raw_cell(bool(args["declared"]), args["method"], bool(args["http"]), args["shape"], args["n"], args["i0"], args["i1"])
+
+
+@cond(q=150, t=600, encoded=[srv.RpcServer.serve_one, _wire._read_request, srv.RpcServer._check_protocol_version], replay=_replay_raw,
+      bound="client metadata VALUE as raw bytes: x | x+'1.2.0' | '1.2.'+x | '1.2.0'+x with x any 0..2 bytes over {%s}, x service declaring 1.2.0 / none "
+            "x {unary, producer stream, __describe__} x {socket serve_one, HTTP app} (solver case split; each cell runs the real stack concretely)"
+            % ",".join("0x%02x" % b for b in _BYTE_ALPHA),
+      signature=lambda a, c: "C09:wiring-bytes:%s:%s:%s:%s" % ("http" if a["http"] else "socket", _METHODS[a["method"]], "declared" if a["declared"] else "undeclared",
+                                                              _raw_class(_raw_value(a["shape"], a["n"], a["i0"], a["i1"]))))
+def gate_wiring_raw_bytes(declared: bool, method: int, http: bool, shape: int, n: int, i0: int, i1: int) -> bool:
+    """
+    pre: 0 <= method <= 2 and 0 <= shape <= 3 and 0 <= n <= 2 and 0 <= i0 < len(_BYTE_ALPHA) and 0 <= i1 < len(_BYTE_ALPHA)
+    pre: (n >= 1 or i0 == 0) and (n >= 2 or i1 == 0)
+    post: _
+    """
+    mi = _pick_index(method, len(_METHODS))
+    si = _pick_index(shape, len(_RAW_SHAPES))
+    ni = _pick_index(n, 3)
+    a0 = _pick_index(i0, len(_BYTE_ALPHA))
+    a1 = _pick_index(i1, len(_BYTE_ALPHA))
+    d, h = (True if declared else False), (True if http else False)
+    try:
+        from crosshair.tracers import NoTracing, is_tracing
+
+        tracing = is_tracing()
+    except ImportError:  # pragma: no cover
+        tracing = False
+    if tracing:
+        with NoTracing():
+            return _raw_cell(d, mi, h, si, ni, a0, a1) is None
+    return _raw_cell(d, mi, h, si, ni, a0, a1) is None
